@@ -4,6 +4,8 @@ package rules
 // `go` edges cut, synthetic wrappers ($bound, $thunk) folded as transparent edges.
 
 import (
+	"go/token"
+	"go/types"
 	"sort"
 	"strings"
 
@@ -278,4 +280,157 @@ func (s *recSCC) depthGuarded() (bool, string) {
 		return false, "a cycle does not increase the depth"
 	}
 	return true, "depth tested in " + model.FnName(guard) + "; every cycle passes it and increases depth"
+}
+
+// stateGuarded checks the "consume before re-entering" idiom on an SCC:
+//   - a function G of the SCC starts with `if recv.empty() { return }` where empty() (or an
+//     inline test) returns F == nil / len(F) == 0 for a field F of G's receiver;
+//   - every in-SCC call made by G is dominated by a store F = nil (directly or in a receiver
+//     method called by G), with no store to F between that point and the call;
+//   - no function reachable from the SCC's functions stores anything else to F;
+//   - removing G makes the SCC acyclic.
+//
+// Then a re-entry of G from inside its own callback finds F empty and returns: the recursion
+// depth through the cycle is at most 2.
+func (s *recSCC) stateGuarded(p *model.Prog) (bool, string) {
+	why := "no function of the cycle has the test-empty / clear-before-callback shape"
+	for _, g := range s.Funcs {
+		if len(g.Params) == 0 || len(g.Blocks) == 0 {
+			continue
+		}
+		if !s.acyclicWithout(func(e recEdge) bool { return e.From == g || e.To == g }) {
+			continue
+		}
+		recv := g.Params[0]
+		iff, ok := g.Blocks[0].Instrs[len(g.Blocks[0].Instrs)-1].(*ssa.If)
+		if !ok {
+			continue
+		}
+		// the emptiness predicate: direct field test or a receiver method returning one
+		emptyField := func(cond ssa.Value, pol bool) *types.Var {
+			c, pl := model.StripNot(cond, pol)
+			fieldOfTest := func(fn *ssa.Function, v ssa.Value, rc ssa.Value) *types.Var {
+				b, ok := v.(*ssa.BinOp)
+				if !ok || b.Op != token.EQL {
+					return nil
+				}
+				x := b.X
+				if l, isLen := lenOf(x); isLen {
+					if k, isK := model.ConstInt(b.Y); !isK || k != 0 {
+						return nil
+					}
+					x = l
+				} else if !model.IsNilConst(b.Y) {
+					return nil
+				}
+				fp, ok := loadPath(x)
+				if !ok || len(fp.Fields) != 1 || !sameRoot(fp.Base, rc) {
+					return nil
+				}
+				return fp.Fields[0]
+			}
+			if !pl {
+				return nil
+			}
+			if f := fieldOfTest(g, c, recv); f != nil {
+				return f
+			}
+			if call, ok := c.(*ssa.Call); ok {
+				callee := call.Common().StaticCallee()
+				if callee != nil && len(callee.Params) == 1 && len(call.Common().Args) == 1 && sameRoot(call.Common().Args[0], recv) {
+					rets := model.ReturnsOf(callee)
+					if len(rets) == 1 && len(callee.Blocks) == 1 {
+						return fieldOfTest(callee, model.ReturnValues(rets[0])[0], callee.Params[0])
+					}
+				}
+			}
+			return nil
+		}
+		f := emptyField(iff.Cond, true)
+		if f == nil {
+			continue
+		}
+		// the empty edge returns without an in-SCC call
+		inSCC := func(in ssa.Instruction) bool {
+			for _, e := range s.Edges {
+				if e.Site == in && e.From == g {
+					return true
+				}
+			}
+			return false
+		}
+		if (model.PathQuery{FromBlock: g.Blocks[0].Succs[0], Target: inSCC}).Find(g) != nil {
+			why = model.FnName(g) + " re-enters the cycle on its 'empty' edge"
+			continue
+		}
+		// clearing instructions in g: store nil to recv.F, or call of a receiver method whose only effect on F is storing nil
+		clears := func(in ssa.Instruction) bool {
+			if st, ok := in.(*ssa.Store); ok {
+				return model.FieldOf(st.Addr) == f && isEmptyValue(st.Val) && sameRoot(storeBase(st), recv)
+			}
+			if ci, ok := in.(ssa.CallInstruction); ok {
+				callee := ci.Common().StaticCallee()
+				if callee == nil || len(ci.Common().Args) == 0 || !sameRoot(ci.Common().Args[0], recv) {
+					return false
+				}
+				n, good := 0, true
+				for _, st := range model.FieldStores(callee, f) {
+					n++
+					if !isEmptyValue(st.Val) || !sameRoot(storeBase(st), callee.Params[0]) {
+						good = false
+					}
+				}
+				return n > 0 && good
+			}
+			return false
+		}
+		unclearedCall := model.PathQuery{Stop: clears, Target: inSCC}.Find(g)
+		if unclearedCall != nil {
+			why = model.FnName(g) + " reaches its callback at " + p.InstrPos(unclearedCall) + " without having cleared " + f.Name() + " first"
+			continue
+		}
+		// no refill between the clear and the callback inside g, and nowhere below the cycle
+		refill := ""
+		for _, fn := range s.Funcs {
+			reach := p.Reachable([]*ssa.Function{fn}, true, inScopeFn)
+			for r := range reach {
+				if r == g {
+					continue
+				}
+				for _, st := range model.FieldStores(r, f) {
+					if !isEmptyValue(st.Val) {
+						refill = model.FnName(r)
+					}
+				}
+			}
+		}
+		for _, st := range model.FieldStores(g, f) {
+			if !isEmptyValue(st.Val) {
+				refill = model.FnName(g)
+			}
+		}
+		if refill != "" {
+			why = f.Name() + " is refilled by " + refill + ", which the cycle can reach"
+			continue
+		}
+		return true, model.FnName(g) + " returns at once when " + f.Name() + " is empty and clears it before calling back into the cycle; nothing the cycle reaches refills it"
+	}
+	return false, why
+}
+
+// isEmptyValue: nil, or a slice expression x[0:0] / x[:0].
+func isEmptyValue(v ssa.Value) bool {
+	if model.IsNilConst(v) {
+		return true
+	}
+	if sl, ok := v.(*ssa.Slice); ok && sl.High != nil {
+		h, okH := model.ConstInt(sl.High)
+		lowZero := sl.Low == nil
+		if !lowZero {
+			l, okL := model.ConstInt(sl.Low)
+			lowZero = okL && l == 0
+		}
+		return okH && h == 0 && lowZero
+	}
+	return false
 }
